@@ -125,3 +125,20 @@ def py_divmod(a, b):
         return q, r
     same = z3.Or(b > 0, r == 0)
     return z3.If(same, q, q - 1), z3.If(same, r, r + b)
+
+
+def nsel(arr, idx, depth=0):
+    """Select(arr, idx) with stores and if-then-else distributed explicitly (so that quantifier triggers see the
+    underlying array reads)."""
+    if z3.is_app(arr) and depth < 24:
+        k = arr.decl().kind()
+        if k == z3.Z3_OP_ITE:
+            c, a, b = arr.children()
+            ra, rb = nsel(a, idx, depth + 1), nsel(b, idx, depth + 1)
+            return ra if ra.eq(rb) else z3.If(c, ra, rb)
+        if k == z3.Z3_OP_STORE:
+            base, i, v = arr.children()
+            if i.eq(idx):
+                return v
+            return z3.If(i == idx, v, nsel(base, idx, depth + 1))
+    return z3.Select(arr, idx)
